@@ -16,7 +16,7 @@ def main(prop, only=None):
             print("   UNDECIDED:", u)
         agg = {}
         for o in res["obligations"]:
-            r = discharge(eng, o, 10000)
+            r = discharge(eng, o, 8000, fallback=False)
             a = agg.setdefault((o.name, o.kind), {"unsat": 0, "sat": 0, "unknown": 0, "t": 0.0, "ex": None})
             a[r["status"]] += 1
             a["t"] += r["time"]
